@@ -1114,3 +1114,118 @@ Proof.
 Qed.
 
 End SecReser.
+
+(* ---------------------------------------------------------------------------------------------- *)
+(* the statements of Props/C18.v that need more than one lemma *)
+Lemma hd_seed_not_total : ~ (forall net s, returns (hd_seed net s)).
+Proof. intros H. destruct (H btc_cfg t_hd_seed_witness) as [v Hv]. rewrite hd_seed_raises in Hv. discriminate. Qed.
+
+Lemma bip32_seed_not_total : ~ (forall hmac512 mulG net s, returns (bip32_seed hmac512 mulG net s)).
+Proof.
+  intros H. destruct (H (fun _ => []) (fun _ => (0, 0)) btc_cfg t_surrogate_witness) as [v Hv].
+  rewrite bip32_seed_raises in Hv. discriminate.
+Qed.
+
+Lemma parse_any_not_total :
+  ~ (forall b58 bech32 int10 int16 compile hmac512 stretch mulG modsqrt net s,
+     returns (parse_any b58 bech32 int10 int16 compile hmac512 stretch mulG modsqrt net s)).
+Proof.
+  intros H.
+  destruct (H (fun _ => None) (fun _ => None) (fun _ => None) (fun _ => None) (fun _ => None)
+              (fun _ => []) (fun _ => 0) (fun _ => (0, 0)) (fun _ => 0) btc_cfg t_surrogate_witness) as [v Hv].
+  rewrite parse_any_raises in Hv by reflexivity. discriminate.
+Qed.
+
+Lemma address_wrong_length net pre d :
+  (n_address net = Some pre -> length d <> (length pre + 20)%nat -> p2pkh_of_payload net d = Ret None) /\
+  (n_p2sh net = Some pre -> length d <> (length pre + 20)%nat -> p2sh_of_payload net d = Ret None).
+Proof.
+  unfold p2pkh_of_payload, p2sh_of_payload.
+  split; intros -> H; apply b58_script_wrong_length; exact H.
+Qed.
+
+Lemma wif_wrong_length_both mulG net pre d : n_wif net = Some pre ->
+  (length d <> (length pre + 32)%nat -> length d <> (length pre + 33)%nat -> wif_of_payload mulG net d = Ret None) /\
+  (length d = (length pre + 33)%nat -> skipn (length pre + 32) d <> [x01] -> wif_of_payload mulG net d = Ret None).
+Proof.
+  intros Hp. split.
+  exact (wif_wrong_length mulG (fun _ => 0) net pre d Hp). exact (wif_bad_marker mulG (fun _ => 0) net pre d Hp).
+Qed.
+
+Lemma wif_bad_exponent' mulG net pre body : n_wif net = Some pre ->
+  valid_exponent (from_bytes (firstn 32 body)) = false -> wif_of_payload mulG net (pre ++ body) = Ret None.
+Proof. exact (wif_bad_exponent mulG net pre body). Qed.
+
+Lemma hd_out_of_range mulG modsqrt pre kind d : length d = 78%nat ->
+  (slice 45 46 d = [x00] -> valid_exponent (from_bytes (skipn 46 d)) = false -> hd_of_payload mulG modsqrt pre kind d = Ret None) /\
+  (slice 45 46 d <> [x00] -> curve_p <= from_bytes (skipn 46 d) -> hd_of_payload mulG modsqrt pre kind d = Ret None).
+Proof.
+  intros L. split.
+  exact (hd_bad_exponent mulG modsqrt pre kind d L). exact (hd_bad_x mulG modsqrt pre kind d L).
+Qed.
+
+Lemma address_reserialize net d o :
+  (p2pkh_of_payload net d = Ret (Some o) -> p2pkh_payload net o = Some d) /\
+  (p2sh_of_payload net d = Ret (Some o) -> p2sh_payload net o = Some d).
+Proof. split. apply p2pkh_reserialize. apply p2sh_reserialize. Qed.
+
+Lemma wif_reserialize' mulG net d o : wif_of_payload mulG net d = Ret (Some o) -> wif_payload net o = Some d.
+Proof. exact (wif_reserialize mulG (fun _ => 0) net d o). Qed.
+
+Lemma text_reserialize b58 b58enc : (forall d, b58 (b58enc d) = Some d) ->
+  forall mulG modsqrt net s o,
+  (p2pkh b58 net s = Ret (Some o) -> exists d, p2pkh_payload net o = Some d /\ p2pkh b58 net (b58enc d) = Ret (Some o)) /\
+  (p2sh b58 net s = Ret (Some o) -> exists d, p2sh_payload net o = Some d /\ p2sh b58 net (b58enc d) = Ret (Some o)) /\
+  (wif b58 mulG net s = Ret (Some o) -> exists d, wif_payload net o = Some d /\ wif b58 mulG net (b58enc d) = Ret (Some o)) /\
+  (forall kind, hd_prefixes_ok net kind -> hd_any b58 mulG modsqrt net kind s = Ret (Some o) ->
+     exists d, hd_payload net o = Some d /\ hd_any b58 mulG modsqrt net kind (b58enc d) = Ret (Some o)).
+Proof.
+  intros Hrt mulG modsqrt net s o. repeat split.
+  apply (p2pkh_text_reserialize b58 b58enc Hrt). apply (p2sh_text_reserialize b58 b58enc Hrt).
+  apply (wif_text_reserialize b58 b58enc Hrt mulG modsqrt). intros kind. apply (hd_text_reserialize b58 b58enc Hrt).
+Qed.
+
+Lemma table_hd_prefixes_ok net kind p : In net table_cfgs -> n_hd_prv net kind = Some p -> hd_prefixes_ok net kind.
+Proof.
+  intros Hin Hp. pose proof table_hd_prefixes as T. rewrite forallb_forall in T. specialize (T net Hin).
+  rewrite forallb_forall in T. apply (hd_prefixes_okb_ok net kind p); [|exact Hp]. apply T. destruct kind; cbn; auto.
+Qed.
+
+Lemma public_key_text_not_reparsed :
+  ~ (forall int10 int16 mulG modsqrt net s o t,
+     public_key int10 int16 mulG modsqrt net s = Ret (Some o) -> public_key_text net o = Ret t ->
+     public_key int10 int16 mulG modsqrt net t = Ret (Some o)).
+Proof.
+  intros H. pose proof (H dec10 no_int mulG_w modsqrt_real btc_cfg w_sec_hex w_sec_key w_sec_text w_sec_parses w_sec_as_text) as R.
+  rewrite w_sec_not_reparsed in R. discriminate.
+Qed.
+
+Lemma public_pair_not_in_range :
+  ~ (forall int10 int16 mulG modsqrt net s pt c,
+     public_pair int10 int16 mulG modsqrt net s = Ret (Some (OKey (Pub pt) c)) ->
+     0 <= fst pt < curve_p /\ 0 <= snd pt < curve_p).
+Proof.
+  intros H. pose proof (H dec10 no_int mulG_w modsqrt_real btc_cfg w_pair_text _ _ w_pair_unreduced) as [[_ R] _].
+  cbn [fst] in R. revert R. apply Z.le_ngt. apply Z.le_succ_diag_r.
+Qed.
+
+Lemma unreduced_witnesses :
+  (public_pair dec10 no_int mulG_w modsqrt_real btc_cfg w_pair_text2 = Ret (Some w_pair_key2) /\
+   public_key_text btc_cfg w_pair_key2 = Raise E_OVERFLOW) /\
+  electrum_pub btc_cfg w_electrum_text = Ret (Some (OElectrum None (Pub (curve_p + 1, y_for_x1)))).
+Proof. split. exact w_pair_overflow. exact w_electrum_unreduced. Qed.
+
+Lemma kinds_disjoint_table mulG modsqrt net : In net table_cfgs ->
+  forall d k1 k2, k1 <> k2 ->
+  accepted (parse_kind mulG modsqrt net k1 d) -> accepted (parse_kind mulG modsqrt net k2 d) -> False.
+Proof.
+  intros Hin. apply kinds_disjoint.
+  pose proof table_kinds_separated as T. rewrite forallb_forall in T. exact (T net Hin).
+Qed.
+
+Lemma hd_pub_not_public :
+  ~ (forall b58 mulG modsqrt net kind s o, hd_pub b58 mulG modsqrt net kind s = Ret (Some o) -> obj_is_private o = false).
+Proof.
+  intros H. pose proof (H (fun _ => Some w_hd_payload) mulG_w modsqrt_real btc_cfg Bip32 [] _ w_hd_pub_gives_private) as R.
+  discriminate.
+Qed.
